@@ -29,6 +29,8 @@ enum Parent {
     BvLoaded(BitsDesc),
     SparseLoaded(BitsDesc),
     RlLoaded(BitsDesc),
+    /// A plain bitvector over the complement of a raw vector (`RawVector::complement`).
+    BvComplement(BitsDesc),
     Multi { universe: usize, values: Vec<usize> },
     Int { width: usize, values: Vec<u64> },
     Wm(Vec<u64>),
@@ -212,9 +214,9 @@ fn explore_parent(ctx: &mut Ctx, parent: &Parent, depth: usize, pos_depth: usize
     let only: Option<Vec<Act>> = want.map(|(_, a)| a.clone());
     let sel = |s: &Start| want.map(|(w, _)| w == s).unwrap_or(true);
     ctx.announce(|| json!({"parent": parent}));
-    ctx.sample_tagged(match parent { Parent::Bv(_) => "BitVector", Parent::Sparse(_) => "SparseVector", Parent::Rl(_) => "RLVector", Parent::BvLoaded(_) => "BitVector(loaded)", Parent::SparseLoaded(_) => "SparseVector(loaded)", Parent::RlLoaded(_) => "RLVector(loaded)", Parent::Multi { .. } => "multiset", Parent::Int { .. } => "IntVector", Parent::Wm(_) => "WaveletMatrix" }, || json!({"parent": parent}));
+    ctx.sample_tagged(match parent { Parent::Bv(_) => "BitVector", Parent::Sparse(_) => "SparseVector", Parent::Rl(_) => "RLVector", Parent::BvLoaded(_) => "BitVector(loaded)", Parent::SparseLoaded(_) => "SparseVector(loaded)", Parent::RlLoaded(_) => "RLVector(loaded)", Parent::BvComplement(_) => "BitVector(of a complemented raw vector)", Parent::Multi { .. } => "multiset", Parent::Int { .. } => "IntVector", Parent::Wm(_) => "WaveletMatrix" }, || json!({"parent": parent}));
     match parent {
-        Parent::Bv(d) | Parent::Sparse(d) | Parent::Rl(d) | Parent::BvLoaded(d) | Parent::SparseLoaded(d) | Parent::RlLoaded(d) => {
+        Parent::Bv(d) | Parent::Sparse(d) | Parent::Rl(d) | Parent::BvLoaded(d) | Parent::SparseLoaded(d) | Parent::RlLoaded(d) | Parent::BvComplement(d) => {
             let m = d.model();
             // Large parents exist for their internal regimes (many blocks, several index buckets), not for deep
             // call trees: those are explored exhaustively on the small parents.
@@ -249,8 +251,17 @@ fn explore_parent(ctx: &mut Ctx, parent: &Parent, depth: usize, pos_depth: usize
             let pred_ref = |v: usize| -> Vec<(usize, usize)> { match m.pred(v as u128) { Some((r, _)) => ones[r as usize..].to_vec(), None => vec![] } };
             let succ_ref = |v: usize| -> Vec<(usize, usize)> { match m.succ(v as u128) { Some((r, _)) => ones[r as usize..].to_vec(), None => vec![] } };
             match parent {
-                Parent::Bv(_) | Parent::BvLoaded(_) => {
+                Parent::Bv(_) | Parent::BvLoaded(_) | Parent::BvComplement(_) => {
                     let mut bv = bv_from_model(&m);
+                    if matches!(parent, Parent::BvComplement(_)) {
+                        use simple_sds::raw_vector::{PushRaw, RawVector};
+                        let mut raw = RawVector::new();
+                        for &b in &bools {
+                            raw.push_bit(!b);
+                        }
+                        bv = simple_sds::bit_vector::BitVector::from(raw.complement());
+                        enable_all(&mut bv);
+                    }
                     if matches!(parent, Parent::BvLoaded(_)) {
                         bv = from_bytes(&to_bytes(&bv)).expect("harness: a serialized bitvector does not load (reported by C06)");
                     }
@@ -409,6 +420,15 @@ fn explore(ctx: &mut Ctx) {
             parents.push(Parent::Bv(BitsDesc::Runs { pairs: pairs.clone(), tail: 2 }));
             parents.push(Parent::Sparse(BitsDesc::Runs { pairs, tail: 2 }));
         }
+    }
+    // Plain bitvectors over complemented raw vectors (the unused bits of the last word must stay clear).
+    for len in 0..=5usize {
+        for word in 0..(1u64 << len) {
+            parents.push(Parent::BvComplement(BitsDesc::Word { len, word }));
+        }
+    }
+    for d in [BitsDesc::Runs { pairs: vec![(0, 63)], tail: 1 }, BitsDesc::Runs { pairs: vec![(3, 60), (4, 3)], tail: 0 }, BitsDesc::Runs { pairs: vec![(0, 1)], tail: 136 }] {
+        parents.push(Parent::BvComplement(d));
     }
     // Loaded structures hand out the same iterators: all parents of <= 4 bits and many-block / multi-superblock
     // parents after serialize + load (the rebuilt indexes of a loaded vector are separate code).
